@@ -8,7 +8,9 @@ import Driver.Util
     thread <k>: <subs>     program of thread k
     follow <k k k …>       which thread performs the next visible event
     schedule … | spurious  (raw detsched schedule, spurious wake-ups: meaningless for the model, ignored)
-    subs: q<id> r<id> quit p<id> startLoop destroy
+    subs: q<id> r<id> quit p<id> startLoop destroy qburst<first>x<count>
+          (ids of q/r ≤ 65535, of p/`task` ≤ 255; `qburst<a>x<n>` is shorthand for `q<a> q<a+1> … q<a+n-1>`, n ≤ 20000,
+          expanded here: the model sees the single `queue` calls)
 
   One `follow` entry `k` = thread `k` is stepped until one of its steps has a visible action (`out ≠ none`),
   which is printed as `T<k> <event>` (followed by `T<k> uaf` when the step touched a destroyed loop).
@@ -31,21 +33,33 @@ structure Cfg where
 def parseNat (s : String) : Option Nat :=
   if s.isEmpty ∨ ¬ s.all Char.isDigit then none else s.toNat?
 
-def parseSub (t : String) : Option Sub :=
-  if t = "quit" then some .quit
-  else if t = "startLoop" then some .startLoop
-  else if t = "destroy" then some .destroy
+def maxTaskId : Nat := 65535
+def maxBurst : Nat := 20000
+
+/-- one token = one API call, or the shorthand `qburst<first>x<count>` = `count` calls of `queueInLoop` -/
+def parseSub (t : String) : Option (List Sub) :=
+  if t = "quit" then some [.quit]
+  else if t = "startLoop" then some [.startLoop]
+  else if t = "destroy" then some [.destroy]
+  else if t.startsWith "qburst" then
+    match ((t.drop 6).toString).splitOn "x" with
+    | [a, n] =>
+      match parseNat a, parseNat n with
+      | some a, some n =>
+        if n ≤ maxBurst ∧ a + n ≤ maxTaskId + 1 then some ((List.range n).map fun j => Sub.queue (a + j)) else none
+      | _, _ => none
+    | _ => none
   else
     let rest := (t.drop 1).toString
     match t.front, parseNat rest with
-    | 'q', some n => if n ≤ 255 then some (.queue n) else none
-    | 'r', some n => if n ≤ 255 then some (.run n) else none
-    | 'p', some n => if n ≤ 255 then some (.post n) else none
+    | 'q', some n => if n ≤ maxTaskId then some [.queue n] else none
+    | 'r', some n => if n ≤ maxTaskId then some [.run n] else none
+    | 'p', some n => if n ≤ 255 then some [.post n] else none
     | _, _ => none
 
 def parseSubs (ws : List String) : Option (List Sub) :=
   ws.foldr (fun w acc => match parseSub w, acc with
-    | some s, some l => some (s :: l)
+    | some s, some l => some (s ++ l)
     | _, _ => none) (some [])
 
 def lookup (l : List (Nat × List Sub)) (k : Nat) : List Sub :=
